@@ -33,6 +33,7 @@ def dispatch (line : String) : IO (List String) := do
   | "c10" :: args => cmdC10 args
   | "c10sel" :: args => cmdC10Sel args
   | "c16" :: args => cmdC16 args
+  | "c16route" :: args => cmdC16route args
   | "c03" :: args => cmdC03 args
   | "c12" :: args => cmdC12 args
   | "c09" :: args => cmdC09 args
